@@ -191,7 +191,11 @@ func (w *fsWriter) writeBlob(data []byte, key Key, n uint64) error {
 			w.m.Volume.Blobs.IncDuplicate("write")
 		}
 
-		return nil
+		// refresh the update time of the blob we are reusing: unused blobs are purged based on their age,
+		// and this blob may have been left unreferenced before this write. If it cannot be refreshed, write it again.
+		if err := w.store.Touch(ctx, w.pather(key)); err == nil {
+			return nil
+		}
 
 	case found && overwrite:
 		// the blob has been found, but was found corrupted
